@@ -225,11 +225,11 @@ func privateSchemaScenario() scenario {
 // pools (loader pool, example buffer pool).
 func creatorsScenario(threads int) scenario {
 	texts := []string{
-		"{\n  \"aaaaaaaaaaaa\": [\n    1,\n    \"two\"\n  ],\n  \"q\": @str\n}",
-		"[\n  {\n    \"k\": true // {optional: true}\n  },\n  @str\n]",
-		"{\n  \"n\": 12.5, // {min: 1}\n  \"o\": {\n    \"z\": null\n  }\n}",
+		"{\n  \"q\": @str,\n  \"o\": 1 // {or: [{type: \"integer\", min: 0}, {type: \"string\"}]}\n}",
+		"[\n  {\n    \"k\": true // {optional: true}\n  },\n  @str | @str\n]",
+		"{\n  \"n\": 12.5, // {min: 1}\n  \"o\": {\n    \"z\": null // {or: [{type: \"null\"}, {type: \"boolean\"}]}\n  }\n}",
 	}
-	docs := []string{`{"aaaaaaaaaaaa":[1,"two"],"q":"s"}`, `[{"k":true},"s"]`, `{"n":12.5,"o":{"z":null}}`}
+	docs := []string{`{"q":"s","o":"x"}`, `[{"k":true},"s"]`, `{"n":12.5,"o":{"z":true}}`}
 	use := func(i int) string {
 		p := jschema.New(fmt.Sprintf("priv%d", i), texts[i])
 		p.AddType("@str", jschema.New("@str", "\"s\""))
@@ -361,9 +361,13 @@ func bounds(sn scenario, thorough bool) []sched.Bounds {
 		p++
 		max = 1500000
 	}
+	e := 2
+	if sn.heavy && sn.threads >= 3 && !thorough {
+		e = 1 // whole compilations in three threads: pairs of pool deviations only in the thorough tier
+	}
 	return []sched.Bounds{
 		{Preemptions: p, EnvDevs: 0, StepLimit: 20000, MaxExec: max},
-		{Preemptions: 0, EnvDevs: 2, StepLimit: 20000, MaxExec: max},
+		{Preemptions: 0, EnvDevs: e, StepLimit: 20000, MaxExec: max},
 	}
 }
 
